@@ -592,24 +592,50 @@ class Check(PropertyCheck):
     design_ref = "§5 C11"
     level_text = ("Lean theorems held_while_intercepted / held_never_sent, resume_forwards_edited / resume_forwards_once, "
                   "remote_close_marks_held / remote_close_kills_held (a source close that the layer treats as a kill), "
-                  "kill_forwards_nothing_and_errors (whole-history form from the initial state for the layers that consult the "
-                  "kill, with well-formedness/distinctness of the held messages derived; _iff: a layer kind satisfies the kill "
-                  "clause exactly when its send-after-hook step consults the kill; _partial from any state; _counterexample "
-                  "for TCP, UDP, WebSocket, DNS answers), siblings_progress / sibling_exchange_while_held, and "
-                  "waiting_only_while_intercepted / intercepted_hook_waits / resume_or_kill_releases about (i) a layer under "
-                  "Layer.handle_event's pause-and-queue semantics with the per-protocol send-after-hook step, for ALL "
-                  "schedules of arrivals and hook completions with any verdict, (ii) a parent routing to child layers, "
-                  "(iii) Flow.intercept/resume/kill/wait_for_resume with any number of hook tasks, for ALL operation "
-                  "sequences.  Tied to the code by running the real layers (HTTP/1, HTTP/2 with a sibling stream, WebSocket, "
-                  "TCP, UDP, DNS) on the queue-based world with the hook completion withheld, and the real "
-                  "ProxyConnectionHandler.handle_hook/hook_task + Flow on the virtual-time loop.")
+                  "kill_forwards_nothing_and_errors_history_partial (whole-history form from the initial state, ONLY for the "
+                  "layers that consult the kill, with well-formedness/distinctness of the held messages derived; named "
+                  "kill_forwards_nothing_and_errors before round 6) / kill_forwards_nothing_and_errors_partial (the same from "
+                  "any state) / _iff (a layer kind satisfies the kill clause exactly when its send-after-hook step consults "
+                  "the kill) / _counterexample (TCP, UDP, WebSocket, DNS answers), siblings_progress / "
+                  "sibling_exchange_while_held, and waiting_only_while_intercepted / intercepted_hook_waits / "
+                  "resume_or_kill_releases about (i) a layer under Layer.handle_event's pause-and-queue semantics with the "
+                  "per-protocol send-after-hook step, for ALL schedules of arrivals and hook completions with any verdict, "
+                  "(ii) a parent routing to child layers, (iii) Flow.intercept/resume/kill/wait_for_resume with any number "
+                  "of hook tasks, for ALL operation sequences; and (iv) their PRODUCT (Model/C11 S/pstep/prun: one flow's "
+                  "layer x flow object x hook tasks, in which the hook completion is not a free input: `deliver` reaches the "
+                  "layer only when the pending message's hook task has returned from wait_for_resume, with the verdict read "
+                  "off the flow and the message at that moment), for ALL histories of arrivals, delivery attempts, closes, "
+                  "intercept/resume/kill and edits: intercepted_message_held (the clause 'while a flow is intercepted nothing "
+                  "of the message is sent': once a message's hook is pending with its task blocked, whatever follows short "
+                  "of resume/kill leaves it pending, the flow intercepted, the message unsent in the whole history, and "
+                  "produces no output at all), intercepted_at_end_not_sent, intercepted_hook_is_held / "
+                  "intercepted_arrival_is_held (a hook that fires while the addon intercepts or the flow is intercepted IS "
+                  "such a blocked hook), send_requires_released_hook (step form: a send only by an enabled delivery, with the "
+                  "content the flow holds then), resume_or_kill_enables_delivery (after resume / kill the delivery is enabled "
+                  "and carries exactly the flow's error flag, the held content and the drop flag), product_forwards_once, and "
+                  "the refinement lemmas prun_refines_run / prun_refines_runA / prun_J / prun_tasks / pstep_layer / pstep_flow / "
+                  "intercepting_hook_blocks / blocked_step (every product run projects to a layer run and a Flow-operation "
+                  "run, so (i) and (iii) hold of it).  Tied to the code by running the real layers (HTTP/1, HTTP/2 with a "
+                  "sibling stream, WebSocket, TCP, UDP, DNS) on the queue-based world with the hook completion withheld, and "
+                  "the real ProxyConnectionHandler.handle_hook/hook_task + Flow on the virtual-time loop; every tied world "
+                  "case is run through BOTH the layer model (completions written by the harness) and the product (driver op "
+                  "`p`: the harness only attempts deliveries; one attempt is made while the flow is intercepted and must do "
+                  "nothing and leave delivery disabled).")
     level_note = ("trusted: Lean kernel; the layer model abstracts each protocol layer to 'one hook per message, then the "
-                  "send-after-hook step' (HTTP's full stream machine is C03's model); a hook completion withheld by the "
-                  "world stands for handle_hook blocked in wait_for_resume, which the async level exercises for real; "
-                  "messages are identified by payload markers at the destination; a source close while the message is held is "
+                  "send-after-hook step' (HTTP's full stream machine is C03's model); at the world level a hook completion "
+                  "withheld by the world stands for handle_hook blocked in wait_for_resume (the product model makes exactly "
+                  "that link and the async level exercises the real handle_hook/wait_for_resume; there is no single run in "
+                  "which a real layer AND the real handle_hook task are driven together); a product instance is one flow: "
+                  "world cases in which the flow is killed while messages of OTHER flows are queued in the same layer "
+                  "(pipelined HTTP/1 request, second DNS query) are tied through the layer model only; "
+                  "messages are identified by payload markers at the destination (the count of every marker is compared, no "
+                  "clamping); a source close while the message is held is "
                   "tied to the model when it is the last thing delivered before the verdict (what can still be delivered "
-                  "after a close depends on the transport; those orders are judged by the direct oracle only).  PARTIAL: kill_forwards_nothing_and_errors "
-                  "holds only for HTTP and DNS queries; TCP/UDP/WebSocket/DNS-answer layers forward a killed flow's "
+                  "after a close depends on the transport; those orders are judged by the direct oracle only).  Lenient oracle "
+                  "branch: 'resume: the message was not forwarded' is not raised when the flow carries an error (a close "
+                  "raced the resume); the model tie still compares the sends in the tied orders.  PARTIAL: "
+                  "kill_forwards_nothing_and_errors_history_partial / _partial "
+                  "hold only for HTTP and DNS queries; TCP/UDP/WebSocket/DNS-answer layers forward a killed flow's "
                   "message (findings F-C11a–d, counterexample theorem).")
     technique = "Lean 4 proof (induction over schedules, invariants) + world / virtual-time correspondence with the real layers and handle_hook"
     rule = ("world cases: 12 message kinds × {resume, edit+resume, kill} × every ordered selection of ≤3 of {next message, "
